@@ -218,6 +218,75 @@ def record_label_balanced(label):
     return depth == 0
 
 
+def record_label_error(label):
+    """None when label is a well-formed Graphviz record label, else a reason.  Follows parse_reclbl of Graphviz
+    (lib/common/shapes.c): a backslash takes the next character literally; '{' may only open a field; at most one
+    '<port>' per field and '>' only closes a port; after a nested '{...}' only blanks may follow in the field;
+    braces must balance (Graphviz itself silently truncates at a surplus top-level '}' - reported here as well,
+    because the rest of the label is lost)."""
+    n = len(label)
+    pos = [0]
+
+    def table(top):
+        # modes of the current field
+        hastext = hasport = inport = hastable = False
+        while True:
+            i = pos[0]
+            c = label[i] if i < n else None
+            if c == "\\":
+                if i + 1 < n:
+                    nxt = label[i + 1]
+                    pos[0] = i + 2
+                    if hastable and nxt != " ":
+                        return "text after a nested table"
+                    if not inport and nxt != " ":
+                        hastext = True
+                    continue
+                c = "\\"  # trailing backslash is text
+            if c == "{":
+                if hastext or hasport or inport or hastable:
+                    return f"'{{' inside a field at offset {i}"
+                pos[0] = i + 1
+                err = table(False)
+                if err:
+                    return err
+                hastable = True
+                continue
+            if c in ("}", "|", None):
+                if c is None and not top:
+                    return "unterminated '{'"
+                if inport:
+                    return f"unterminated '<port' at offset {i}"
+                if c is None:
+                    return None
+                pos[0] = i + 1
+                if c == "}":
+                    if top:
+                        return f"surplus '}}' at offset {i}"
+                    return None
+                hastext = hasport = inport = hastable = False
+                continue
+            if c == "<":
+                if hastable or hasport:
+                    return f"second '<' in a field at offset {i}"
+                hasport = inport = True
+                pos[0] = i + 1
+                continue
+            if c == ">":
+                if not inport:
+                    return f"'>' outside a port at offset {i}"
+                inport = False
+                pos[0] = i + 1
+                continue
+            if hastable and c != " ":
+                return f"text after a nested table at offset {i}"
+            if not inport and c != " ":
+                hastext = True
+            pos[0] = i + 1
+
+    return table(True)
+
+
 def first_field(label):
     """first field of a record label '{name|...}' with escapes kept"""
     s = label
